@@ -1,0 +1,368 @@
+//! Verification hooks (compiled only with `--features verif`).
+//!
+//! * re-exports the server internals an external conformance harness needs to drive the *real*
+//!   dispatch functions in-process;
+//! * `RwLock` / `Mutex`: drop-in wrappers around `tokio::sync::{RwLock, Mutex}` that shadow the
+//!   imports of the seven files using them. Every acquisition site (present and future) therefore
+//!   emits `park / req / acq / rel` events with task id, lock id, mode and held-set, and is a
+//!   scheduling point: when a controller is installed a task parks before *requesting* a lock until
+//!   the controller releases it.
+//!
+//! With the feature off this file is not compiled and nothing else in the crate changes.
+
+use std::collections::{BTreeMap, HashMap};
+use std::ops::{Deref, DerefMut};
+use std::sync::{Arc, Mutex as StdMutex};
+
+pub use crate::context::{
+    ClientProxy, FileDiagnostic, LspFeatures, ServerContext, ServerContextSnapshot, StatusBar,
+    WorkspaceManager,
+};
+pub use crate::handlers::{
+    ClientConfig, init_analysis, initialized_handler, on_notification_handler, on_request_handler,
+    on_response_handler, server_capabilities,
+};
+pub use crate::server::AsyncConnection;
+
+/// The real server main loop (`LspServer::run` behind it), for free-running in-process traces.
+pub async fn main_loop(
+    connection: AsyncConnection,
+    params: lsp_types::InitializeParams,
+    cmd_args: crate::cmd_args::CmdArgs,
+) -> Result<(), Box<dyn std::error::Error + Sync + Send>> {
+    crate::server::verif_main_loop(connection, params, cmd_args).await
+}
+
+// ------------------------------------------------------------------------------------------------
+// tracer + scheduler state
+// ------------------------------------------------------------------------------------------------
+
+#[derive(Debug, Clone)]
+pub struct Event {
+    pub seq: u64,
+    pub task: u64,
+    /// "park" | "req" | "acq" | "rel"
+    pub ev: &'static str,
+    pub lock: &'static str,
+    /// 'R' | 'W' | 'M'
+    pub mode: char,
+    /// locks held by `task` when the event was emitted (after the change for acq/rel)
+    pub held: Vec<(&'static str, char)>,
+}
+
+#[derive(Debug, Clone)]
+pub struct Parked {
+    pub task: u64,
+    pub lock: &'static str,
+    pub mode: char,
+}
+
+struct State {
+    tracing: bool,
+    scheduling: bool,
+    seq: u64,
+    events: Vec<Event>,
+    held: HashMap<u64, Vec<(&'static str, char)>>,
+    parked: BTreeMap<u64, (&'static str, char, Arc<tokio::sync::Notify>)>,
+}
+
+static STATE: StdMutex<Option<State>> = StdMutex::new(None);
+
+fn with_state<R>(f: impl FnOnce(&mut State) -> R) -> R {
+    let mut g = STATE.lock().unwrap_or_else(|e| e.into_inner());
+    let st = g.get_or_insert_with(|| State {
+        tracing: false,
+        scheduling: false,
+        seq: 0,
+        events: Vec::new(),
+        held: HashMap::new(),
+        parked: BTreeMap::new(),
+    });
+    f(st)
+}
+
+pub fn current_task() -> u64 {
+    tokio::task::try_id()
+        .map(|id| id.to_string().parse::<u64>().unwrap_or(u64::MAX))
+        .unwrap_or(0)
+}
+
+/// Start recording events (clears previous events). `scheduling` additionally makes every lock
+/// request a parking point that only `release` lets through.
+pub fn install(tracing: bool, scheduling: bool) {
+    with_state(|s| {
+        s.tracing = tracing;
+        s.scheduling = scheduling;
+        s.seq = 0;
+        s.events.clear();
+        s.held.clear();
+        s.parked.clear();
+    });
+}
+
+/// Stop scheduling and let every parked task go.
+pub fn release_all() {
+    with_state(|s| {
+        s.scheduling = false;
+        for (_, (_, _, n)) in std::mem::take(&mut s.parked) {
+            n.notify_one();
+        }
+    });
+}
+
+pub fn parked() -> Vec<Parked> {
+    with_state(|s| {
+        s.parked
+            .iter()
+            .map(|(t, (l, m, _))| Parked {
+                task: *t,
+                lock: l,
+                mode: *m,
+            })
+            .collect()
+    })
+}
+
+/// Let one parked task request its lock. Returns false when the task is not parked.
+pub fn release(task: u64) -> bool {
+    with_state(|s| match s.parked.remove(&task) {
+        Some((_, _, n)) => {
+            n.notify_one();
+            true
+        }
+        None => false,
+    })
+}
+
+pub fn event_count() -> usize {
+    with_state(|s| s.events.len())
+}
+
+pub fn events_since(from: usize) -> Vec<Event> {
+    with_state(|s| s.events[from.min(s.events.len())..].to_vec())
+}
+
+pub fn held_by(task: u64) -> Vec<(&'static str, char)> {
+    with_state(|s| s.held.get(&task).cloned().unwrap_or_default())
+}
+
+fn emit(s: &mut State, task: u64, ev: &'static str, lock: &'static str, mode: char) {
+    if !s.tracing {
+        return;
+    }
+    s.seq += 1;
+    let held = s.held.get(&task).cloned().unwrap_or_default();
+    s.events.push(Event {
+        seq: s.seq,
+        task,
+        ev,
+        lock,
+        mode,
+        held,
+    });
+}
+
+async fn gate(lock: &'static str, mode: char) -> u64 {
+    let task = current_task();
+    let notify = with_state(|s| {
+        if !s.scheduling {
+            return None;
+        }
+        let n = Arc::new(tokio::sync::Notify::new());
+        s.parked.insert(task, (lock, mode, n.clone()));
+        emit(s, task, "park", lock, mode);
+        Some(n)
+    });
+    if let Some(n) = notify {
+        n.notified().await;
+    }
+    with_state(|s| emit(s, task, "req", lock, mode));
+    task
+}
+
+fn acquired(task: u64, lock: &'static str, mode: char) {
+    with_state(|s| {
+        s.held.entry(task).or_default().push((lock, mode));
+        emit(s, task, "acq", lock, mode);
+    });
+}
+
+fn released(task: u64, lock: &'static str, mode: char) {
+    with_state(|s| {
+        if let Some(h) = s.held.get_mut(&task)
+            && let Some(i) = h.iter().rposition(|x| *x == (lock, mode))
+        {
+            h.remove(i);
+        }
+        emit(s, task, "rel", lock, mode);
+    });
+}
+
+fn lock_name<T: ?Sized>() -> &'static str {
+    let n = std::any::type_name::<T>();
+    if n.ends_with("EmmyLuaAnalysis") {
+        "an"
+    } else if n.ends_with("WorkspaceManager") {
+        "wm"
+    } else if n.contains("RequestId") {
+        "cancellations"
+    } else if n.contains("HashMap") && n.contains("FileId") {
+        "diag_tokens"
+    } else if n.contains("Option") && n.contains("CancellationToken") {
+        "ws_diag_token"
+    } else if n == "()" {
+        "reload_lock"
+    } else {
+        n
+    }
+}
+
+// ------------------------------------------------------------------------------------------------
+// RwLock wrapper
+// ------------------------------------------------------------------------------------------------
+
+pub struct RwLock<T: ?Sized> {
+    inner: tokio::sync::RwLock<T>,
+}
+
+impl<T> RwLock<T> {
+    pub fn new(value: T) -> Self {
+        Self {
+            inner: tokio::sync::RwLock::new(value),
+        }
+    }
+}
+
+impl<T: ?Sized> RwLock<T> {
+    pub async fn read(&self) -> RwLockReadGuard<'_, T> {
+        let lock = lock_name::<T>();
+        let task = gate(lock, 'R').await;
+        let g = self.inner.read().await;
+        acquired(task, lock, 'R');
+        RwLockReadGuard {
+            g: Some(g),
+            lock,
+            task,
+        }
+    }
+
+    pub async fn write(&self) -> RwLockWriteGuard<'_, T> {
+        let lock = lock_name::<T>();
+        let task = gate(lock, 'W').await;
+        let g = self.inner.write().await;
+        acquired(task, lock, 'W');
+        RwLockWriteGuard {
+            g: Some(g),
+            lock,
+            task,
+        }
+    }
+
+    /// Harness-side observation only (no events, no gate).
+    pub fn verif_try_read(&self) -> Option<tokio::sync::RwLockReadGuard<'_, T>> {
+        self.inner.try_read().ok()
+    }
+}
+
+pub struct RwLockReadGuard<'a, T: ?Sized> {
+    g: Option<tokio::sync::RwLockReadGuard<'a, T>>,
+    lock: &'static str,
+    task: u64,
+}
+
+impl<T: ?Sized> Deref for RwLockReadGuard<'_, T> {
+    type Target = T;
+    fn deref(&self) -> &T {
+        self.g.as_ref().expect("guard alive")
+    }
+}
+
+impl<T: ?Sized> Drop for RwLockReadGuard<'_, T> {
+    fn drop(&mut self) {
+        // log the release before the lock becomes available to other tasks
+        released(self.task, self.lock, 'R');
+        self.g.take();
+    }
+}
+
+pub struct RwLockWriteGuard<'a, T: ?Sized> {
+    g: Option<tokio::sync::RwLockWriteGuard<'a, T>>,
+    lock: &'static str,
+    task: u64,
+}
+
+impl<T: ?Sized> Deref for RwLockWriteGuard<'_, T> {
+    type Target = T;
+    fn deref(&self) -> &T {
+        self.g.as_ref().expect("guard alive")
+    }
+}
+
+impl<T: ?Sized> DerefMut for RwLockWriteGuard<'_, T> {
+    fn deref_mut(&mut self) -> &mut T {
+        self.g.as_mut().expect("guard alive")
+    }
+}
+
+impl<T: ?Sized> Drop for RwLockWriteGuard<'_, T> {
+    fn drop(&mut self) {
+        released(self.task, self.lock, 'W');
+        self.g.take();
+    }
+}
+
+// ------------------------------------------------------------------------------------------------
+// Mutex wrapper
+// ------------------------------------------------------------------------------------------------
+
+pub struct Mutex<T: ?Sized> {
+    inner: tokio::sync::Mutex<T>,
+}
+
+impl<T> Mutex<T> {
+    pub fn new(value: T) -> Self {
+        Self {
+            inner: tokio::sync::Mutex::new(value),
+        }
+    }
+}
+
+impl<T: ?Sized> Mutex<T> {
+    pub async fn lock(&self) -> MutexGuard<'_, T> {
+        let lock = lock_name::<T>();
+        let task = gate(lock, 'M').await;
+        let g = self.inner.lock().await;
+        acquired(task, lock, 'M');
+        MutexGuard {
+            g: Some(g),
+            lock,
+            task,
+        }
+    }
+}
+
+pub struct MutexGuard<'a, T: ?Sized> {
+    g: Option<tokio::sync::MutexGuard<'a, T>>,
+    lock: &'static str,
+    task: u64,
+}
+
+impl<T: ?Sized> Deref for MutexGuard<'_, T> {
+    type Target = T;
+    fn deref(&self) -> &T {
+        self.g.as_ref().expect("guard alive")
+    }
+}
+
+impl<T: ?Sized> DerefMut for MutexGuard<'_, T> {
+    fn deref_mut(&mut self) -> &mut T {
+        self.g.as_mut().expect("guard alive")
+    }
+}
+
+impl<T: ?Sized> Drop for MutexGuard<'_, T> {
+    fn drop(&mut self) {
+        released(self.task, self.lock, 'M');
+        self.g.take();
+    }
+}
